@@ -31,3 +31,28 @@ int wrapped_main(int argc, char** argv) {
   }
   return exitval;
 }
+
+/* R-C09-6: extension handler fails when the line ended */
+static bool premature_eol(unsigned char tok) { fprintf(stderr, "eol after 0x%02X\n", tok); return false; }
+static bool handle_ext(unsigned char intro, const char **output,
+		       const unsigned char **input, unsigned char *len)
+{
+  if (*len == 0)
+    return premature_eol(intro);
+  if (**input == 0x98)
+    {
+      ++*input;
+      --*len;
+      *output = "QUIT";
+    }
+  else
+    {
+      *output = "LOAD";
+    }
+  return true;
+}
+bool use_ext(const unsigned char *p, unsigned char n)
+{
+  const char *o = 0;
+  return handle_ext(0xC8, &o, &p, &n) && o;
+}
